@@ -117,7 +117,42 @@ class SpecLib:
                 return mk(real, name)
         return None
 
+    # ---- ghost file system: ex.fs is a dict box  path -> content (one string); every operation that can
+    # fail in reality has a may-raise outcome (a fresh Boolean decides), which is what turns "the i-th
+    # write fails", "rename fails" ... into explicit paths
+    def _fs_fail(self, ex, what):
+        flag = z3.Bool(fresh_name("fails_" + what))
+        return ex.branch(flag)
+
+    def fs_open_write(self, ex, name):
+        self.use("ghost file system: open(path, 'w+') either raises OSError (nothing changes) or creates/truncates the file")
+        if isinstance(name, VOpt):
+            name = ex.deopt(name)
+        if self._fs_fail(ex, "open"):
+            ex.raise_(OSError)
+        self.dict_set(ex, ex.fs, name, const_seq("str", ""))
+        return VObj("TextIOW", {"path": name, "closed": VBool(False)}, fresh_name("wf"))
+
     def call_real(self, ex, obj, args, kwargs):
+        import os as _os
+        if getattr(ex, "fs", None) is not None:
+            if obj is _os.rename:
+                self.use("ghost file system: os.rename(a, b) either raises OSError (nothing changes) or moves a over b")
+                a, b = args
+                if self._fs_fail(ex, "rename"):
+                    ex.raise_(OSError)
+                content = self.dict_get(ex, ex.fs, a)
+                self.dict_del(ex, ex.fs, a)
+                self.dict_set(ex, ex.fs, b, content)
+                return NONE
+            if obj is _os.path.exists:
+                return VBool(self.box_contains(ex, ex.fs, args[0]))
+            if obj is _os.unlink:
+                self.use("ghost file system: os.unlink(p) removes p and is assumed not to fail on an existing file")
+                if ex.may_raise(z3.Not(self.box_contains(ex, ex.fs, args[0]))):
+                    ex.raise_(FileNotFoundError)
+                self.dict_del(ex, ex.fs, args[0])
+                return NONE
         import sys as _sys
         if obj is _sys.getfilesystemencoding:
             self.use("sys.getfilesystemencoding(): some fixed string (uninterpreted constant fs_encoding)")
@@ -442,7 +477,15 @@ class SpecLib:
         raise Unsupported("havoc of %r" % (box,))
 
     def dict_del(self, ex, box, key):
-        raise Unsupported("dict delete")
+        if box.val is None:
+            ex.raise_(KeyError)
+        d = box.val
+        k = self._dkey(ex, box, key)
+        if ex.may_raise(z3.Not(z3.Select(d.keys, k))):
+            ex.raise_(KeyError)
+        # the value slot of a removed key goes back to the common junk so that equal dicts stay equal terms
+        junk = empty_dict(d.kty, d.vty).vals
+        box.val = DictVal(d.kty, d.vty, z3.Store(d.keys, k, z3.BoolVal(False)), z3.Store(d.vals, k, z3.Select(junk, k)))
 
     def fresh_typed(self, ex, ty, nm):
         """fresh value of a declared type, including model objects: ('obj', 'BinaryIO')"""
@@ -484,13 +527,18 @@ class SpecLib:
                                                 z3.And(v.t[i] >= 0, v.t[i] <= hi)), patterns=[v.t[i]]))
 
     def with_enter(self, ex, cm):
-        if isinstance(cm, VObj) and cm.cls == "BinaryIO":
+        if isinstance(cm, VObj) and cm.cls in ("BinaryIO", "TextIOW"):
             return cm
         raise Unsupported("with %r" % (cm,))
 
     def with_exit(self, ex, cm, exceptional):
         if isinstance(cm, VObj) and cm.cls == "BinaryIO":
             cm.fields["closed"] = VBool(True)
+            return
+        if isinstance(cm, VObj) and cm.cls == "TextIOW":
+            cm.fields["closed"] = VBool(True)
+            if not exceptional and self._fs_fail(ex, "close"):
+                ex.raise_(OSError)          # flushing on close may fail (content already written stays)
             return
         raise Unsupported("with-exit %r" % (cm,))
 
@@ -814,6 +862,8 @@ class SpecLib:
         def b_open(ex, a, kw):
             self.use("open(name, 'rb'): yields the bytes of the named file, cannot fail (A-ENV)")
             name, mode = a[0], a[1] if len(a) > 1 else kw.get("mode")
+            if isinstance(mode, VSeq) and mode.pyval in ("w", "w+", "wt") and getattr(ex, "fs", None) is not None:
+                return self.fs_open_write(ex, name)
             if not (isinstance(mode, VSeq) and mode.pyval == "rb"):
                 raise Unsupported("open() mode %r" % (mode,))
             if isinstance(name, VOpt):
@@ -1002,6 +1052,18 @@ class SpecLib:
                 k = k.py()
             return self.re_group(ex, mo, k)
         MD[("Match", "group")] = m_group
+
+        def tw_write(ex, a, kw):
+            self.use("ghost file system: write(s) either appends s or raises OSError after appending an arbitrary prefix")
+            f, data = a
+            cur = self.dict_get(ex, ex.fs, f.fields["path"])
+            if self._fs_fail(ex, "write"):
+                part = VSeq("str", "int", z3.Const(fresh_name("partial_write"), SeqI))
+                self.dict_set(ex, ex.fs, f.fields["path"], VSeq("str", "int", z3.Concat(cur.t, part.t)))
+                ex.raise_(OSError)
+            self.dict_set(ex, ex.fs, f.fields["path"], VSeq("str", "int", z3.Concat(cur.t, data.t)))
+            return VInt(data.length())
+        MD[("TextIOW", "write")] = tw_write
 
         def su_setattr(ex, a, kw):
             su, name, v = a
